@@ -54,6 +54,12 @@ MUTATIONS = [
     ('convert-state-options-memoised-by-abbreviation', 'C08', 'emmet/markup/__init__.py',
      "            'jsx': bool(config.options.get('jsx.enabled')),\n",
      "            'jsx': _JSX.setdefault(abbr, bool(config.options.get('jsx.enabled'))),\n"),
+    ('tokenizer-memoised-by-source-string-without-bound', 'C08', 'emmet/abbreviation/__init__.py',
+     "        tokens = tokenize(abbr) if isinstance(abbr, str) else abbr\n",
+     "        if isinstance(abbr, str):\n            if abbr not in _TOKENS:\n                _TOKENS[abbr] = tokenize(abbr)\n            tokens = list(_TOKENS[abbr])\n        else:\n            tokens = abbr\n"),
+    ('warning-text-contains-the-input', 'C08', 'emmet/stylesheet/format.py',
+     "        abbr = [node for node in abbr if node.snippet is not None or node.important]\n",
+     "        for node in abbr:\n            if node.snippet is None and not node.important and node.name:\n                warnings.warn('no snippet for %s' % node.name)\n        abbr = [node for node in abbr if node.snippet is not None or node.important]\n"),
     ('last-parsed-tree-kept-for-debugging', 'C08', 'emmet/markup/__init__.py',
      "    finally:\n        config.user_config['text'] = text\n    return abbr",
      "    finally:\n        config.user_config['text'] = text\n    _LAST[:] = [abbr]\n    return abbr"),
@@ -111,9 +117,9 @@ EQUIVALENT = [
          "    if snippets is None:\n        memo_key = tuple(sorted(config.snippets.items()))\n        if memo_key not in _CONVERTED:\n            _CONVERTED[memo_key] = convert_snippets(config.snippets)\n        snippets = _CONVERTED[memo_key]"),
         ('emmet/stylesheet/__init__.py', "gradient_name = 'lg'\n", "gradient_name = 'lg'\n_CONVERTED = {}\n"),
     ]),
-    ('tokenizer-memoised-by-source-string', ['C08', 'C13'], [
+    ('tokenizer-memoised-by-source-string-bounded-to-256-entries', ['C08', 'C13'], [
         ('emmet/abbreviation/__init__.py', "        tokens = tokenize(abbr) if isinstance(abbr, str) else abbr\n",
-         "        if isinstance(abbr, str):\n            if abbr not in _TOKENS:\n                _TOKENS[abbr] = tokenize(abbr)\n            tokens = list(_TOKENS[abbr])\n        else:\n            tokens = abbr\n"),
+         "        if isinstance(abbr, str):\n            if abbr not in _TOKENS:\n                if len(_TOKENS) >= 256:\n                    _TOKENS.clear()\n                _TOKENS[abbr] = tokenize(abbr)\n            tokens = list(_TOKENS[abbr])\n        else:\n            tokens = abbr\n"),
         ('emmet/abbreviation/__init__.py', "from ..scanner import ScannerException\n", "from ..scanner import ScannerException\n\n_TOKENS = {}\n"),
     ]),
     ('newline-written-without-consulting-output-text', ['C13'], [
@@ -140,6 +146,8 @@ EQUIVALENT = [
 ]
 
 PREAMBLE = {
+    'tokenizer-memoised-by-source-string-without-bound': ('emmet/abbreviation/__init__.py', "\n_TOKENS = {}\n"),
+    'warning-text-contains-the-input': ('emmet/stylesheet/format.py', "\nimport warnings\n"),
     'last-parsed-tree-kept-for-debugging': ('emmet/markup/__init__.py', "\n_LAST = []\n"),
     'snippet-definition-memoised-by-name': ('emmet/markup/snippets.py', "\n_SEEN = {}\n"),
     'convert-state-options-memoised-by-abbreviation': ('emmet/markup/__init__.py', "\n_JSX = {}\n"),
